@@ -29,6 +29,7 @@ type RevProfile struct {
 	STPct         int // percent with a signing time
 	Schedules     int // number of alternative latency vectors (C12/C17)
 	MaxCallers    int
+	StaggerPct    int // concurrent callers start at different instants in this share of the multi-caller runs
 	RacePanic     bool
 	CachePct      int
 	LatMax        int   // upper bound of latencies in ms (0 = 3000)
@@ -107,6 +108,7 @@ type RevScenario struct {
 	CacheLatency     time.Duration   // fake duration of every cache operation
 	WrapMiss         bool            // the cache reports misses as a wrapped ErrCacheMiss
 	PanicInSet       bool            // PanicAt == "cache": Set panics instead of Get
+	StaggerMs        []int           // start offset of every concurrent caller, in the order of the full scenario (nil = together)
 	Sequential       bool            // soak: the worlds are successive validations of the same chain
 	Gaps             []time.Duration // soak: fake time that passes before each validation
 	Restarts         []bool          // soak: a new fetcher and validator (same cache) is built before the validation
@@ -227,6 +229,10 @@ func (p *RevProfile) genOCSPContent(t *Tape, sc *RevScenario, truth int, deviate
 		c.Signer = SgSelf + t.Choose(nSigners-SgSelf)
 		if t.Bool(70) {
 			c.Status = StGood // the dangerous direction
+		}
+		switch c.Signer {
+		case SgSelf, SgSibling, SgSiblingIssuerName, SgOtherCADeleg:
+			c.NoEmbed = t.Bool(20)
 		}
 	case 2:
 		c.SerialKind = 1 + t.Choose(nSerialKinds-1)
@@ -439,6 +445,17 @@ func GenRevScenario(t *Tape, p *RevProfile) *RevScenario {
 					sc.PanicCerts = append(sc.PanicCerts, c)
 				}
 			}
+		}
+	}
+	if p.StaggerPct > 0 && !sc.Sequential && total > 1 && t.Bool(p.StaggerPct) {
+		// the callers do not start together: some arrive while earlier ones are
+		// busy, some shortly after an earlier one has finished
+		for j := 0; j < total; j++ {
+			ms := 0
+			if j > 0 {
+				ms = []int{0, 1 + t.Choose(50), 100 + t.Choose(1400), 3000 + t.Choose(5000)}[t.Weighted(20, 25, 30, 25)]
+			}
+			sc.StaggerMs = append(sc.StaggerMs, ms)
 		}
 	}
 	for i := 0; i < p.Schedules-1 && !sc.Sequential; i++ {
@@ -663,6 +680,17 @@ func (p *RevProfile) genWorld(t *Tape, sc *RevScenario, id int) *World {
 				s.Host, s.URL = cp.OCSP[i-1].Host, cp.OCSP[i-1].URL
 			}
 			cp.OCSP = append(cp.OCSP, s)
+		}
+		if nO >= 2 && !root && faulty && sc.Config >= 2 && t.Bool(4) {
+			// an unauthorised signer seen twice: first with its certificate
+			// embedded, then - by the next responder - without
+			k := []int{SgSelf, SgSibling, SgSiblingIssuerName, SgOtherCADeleg}[t.Choose(4)]
+			a, b := cp.OCSP[0], cp.OCSP[1]
+			if a.URLKind == UNormal && b.URLKind == UNormal && a.URL != b.URL {
+				a.Content = OCSPContent{Status: StGood, Signer: k, RevAgo: 24}
+				b.Content = OCSPContent{Status: StGood, Signer: k, RevAgo: 24, NoEmbed: true}
+				a.Fault, b.Fault = Fault{}, Fault{}
+			}
 		}
 		for i := 0; i < nC; i++ {
 			s := &CRLSrc{Host: fmt.Sprintf("c%d-%d.w%d.sim", pos, i, id)}
